@@ -46,6 +46,9 @@ fn main() {
     std::panic::set_hook(Box::new(|_| {
         simalloc::deactivate();
     }));
+    // std's allocation-error path prints a backtrace when this is set; the
+    // symbolisation would run inside the simulated heap
+    std::env::set_var("RUST_BACKTRACE", "0");
     let args: Vec<String> = std::env::args().collect();
     let code = match args.get(1).map(|s| s.as_str()) {
         Some("check") if args.len() >= 4 => {
